@@ -15,6 +15,7 @@ import (
 	"encoding/json"
 	"fmt"
 	"os"
+	"runtime/debug"
 	"sort"
 	"strings"
 	"sync"
@@ -81,7 +82,7 @@ func runCase(spec caseSpec) (res caseResult) {
 	res.spec = spec
 	defer func() {
 		if r := recover(); r != nil {
-			res.fails = append(res.fails, failure{"wallet-panic", fmt.Sprint(r)})
+			res.fails = append(res.fails, failure{"wallet-panic", fmt.Sprint(r) + "\n" + string(debug.Stack())})
 		}
 	}()
 	e, err := newEnv(spec)
@@ -235,11 +236,14 @@ func randomAmount(r *rng.R) string {
 	return fmt.Sprintf("p%d%s", k, []string{"", "-1", "+1"}[r.Intn(3)])
 }
 
-func randomOps(r *rng.R, short, ties bool) []opSpec {
+func randomOps(r *rng.R, short, ties bool, thresh int) []opSpec {
 	n := 8 + r.Intn(22)
 	var ops []opSpec
 	for len(ops) < n {
 		x := r.Intn(100)
+		if thresh >= 3 && !ties && x < 10 {
+			x = 80 // SplitUTXO can only succeed with n <= DefragThreshold: ask more often there
+		}
 		switch {
 		case x < 36:
 			o := opSpec{Kind: "fund", V2: r.Bool(), Amount: randomAmount(r), Unc: r.Chance(1, 3)}
@@ -260,7 +264,12 @@ func randomOps(r *rng.R, short, ties bool) []opSpec {
 			}
 			ops = append(ops, opSpec{Kind: "redist", Outputs: 1 + r.Intn(14), Amount: fmt.Sprint(1+r.Intn(40)) + unit, FeePerB: fee})
 		case x < 86 && !ties:
-			ops = append(ops, opSpec{Kind: "split", N: r.Intn(6), Min: fmt.Sprint(r.Intn(30)) + unit})
+			o := opSpec{Kind: "split", N: r.Intn(6), Min: fmt.Sprint(r.Intn(30)) + unit}
+			if r.Chance(3, 4) {
+				o.N = 2 + r.Intn(max(1, min(thresh-1, 8)))
+				o.Min = fmt.Sprintf("d%d", o.N+2+r.Intn(8))
+			}
+			ops = append(ops, o)
 		case x < 91:
 			ops = append(ops, opSpec{Kind: "restart", NewCM: r.Bool()})
 		case x < 96 && short:
@@ -397,7 +406,7 @@ func runC07(c *hx.Ctx) {
 		if s.Cfg.Short && r.Chance(1, 2) {
 			s.Cfg.Short = false // keep the sleeping cases to a quarter
 		}
-		s.Ops = randomOps(r, s.Cfg.Short, false)
+		s.Ops = randomOps(r, s.Cfg.Short, false, s.Cfg.Thresh)
 		specs = append(specs, s)
 	}
 	for i := 0; i < nTies; i++ {
@@ -407,7 +416,7 @@ func runC07(c *hx.Ctx) {
 		if r.Bool() {
 			s.Ops = gridOps(r, len(s.Setup.Values))
 		} else {
-			s.Ops = randomOps(r, false, true)
+			s.Ops = randomOps(r, false, true, s.Cfg.Thresh)
 		}
 		specs = append(specs, s)
 	}
@@ -481,5 +490,13 @@ func runC07(c *hx.Ctx) {
 	}
 	res.Explored = map[string]any{"option_grid": "4x4x4x2 (every combination at least once in the grid stream)", "grid_cases": nGrid, "random_cases": nRand, "tie_cases": nTies}
 	soak(c)
-	res.WriteCases("Run.Run_C07", cases)
+	// several small files: bin/check evaluates them in parallel, and Coq's
+	// elaboration of the literal case terms dominates the cost
+	chunk := (len(cases) + 7) / 8
+	if chunk < 25 {
+		chunk = 25
+	}
+	for i := 0; i < len(cases); i += chunk {
+		res.WriteCases("Run.Run_C07", cases[i:min(i+chunk, len(cases))])
+	}
 }
